@@ -113,7 +113,7 @@ theorem convSym_spec (old : Array Rat) (s : Nat) (b : Rat) (new : Array Rat) (n 
         simp [hj, this]
       · by_cases hj' : s ≤ j ∧ j - s < n + 1
         · have : j - s = n := by omega
-          simp [hj, hj', this, h0]
+          simp [hj', this, h0]
         · simp [hj, hj']
     · simp only [h0, if_false]
       refine ⟨by simp [hsz], fun j => ?_⟩
@@ -123,7 +123,7 @@ theorem convSym_spec (old : Array Rat) (s : Nat) (b : Rat) (new : Array Rat) (n 
         have h1 : ¬ (s ≤ n + s ∧ n + s - s < n) := by omega
         have h2 : s ≤ n + s ∧ n + s - s < n + 1 := by omega
         have h3 : n + s - s = n := by omega
-        simp [h1, h2, h3]
+        simp [h2, h3]
       · by_cases hj : s ≤ j ∧ j - s < n
         · have : s ≤ j ∧ j - s < n + 1 := ⟨hj.1, by omega⟩
           simp [hjn, hj, this]
